@@ -143,13 +143,23 @@ func recurseValidationCode(att *expr.AttributeExpr, put expr.UserType, attCtx *A
 		}
 	case expr.IsMap(att.Type):
 		m := expr.AsMap(att.Type)
-		ctx := attCtx.Dup()
-		ctx.Pointer = false
-		keyVal := validateAttribute(ctx, m.KeyType, put, "k", context+".key", true, view)
+		// Map keys and elements of primitive type are never pointers; user
+		// types keep the context so that hasValidations sees what the
+		// Validate function of the type actually checks.
+		keyCtx, elemCtx := attCtx, attCtx
+		if expr.IsPrimitive(m.KeyType.Type) || expr.IsArray(m.KeyType.Type) || expr.IsMap(m.KeyType.Type) {
+			keyCtx = attCtx.Dup()
+			keyCtx.Pointer = false
+		}
+		if expr.IsPrimitive(m.ElemType.Type) || expr.IsArray(m.ElemType.Type) || expr.IsMap(m.ElemType.Type) {
+			elemCtx = attCtx.Dup()
+			elemCtx.Pointer = false
+		}
+		keyVal := validateAttribute(keyCtx, m.KeyType, put, "k", context+".key", true, view)
 		if keyVal != "" {
 			keyVal = "\n" + keyVal
 		}
-		valueVal := validateAttribute(ctx, m.ElemType, put, "v", context+"[key]", true, view)
+		valueVal := validateAttribute(elemCtx, m.ElemType, put, "v", context+"[key]", true, view)
 		if valueVal != "" {
 			valueVal = "\n" + valueVal
 		}
